@@ -136,6 +136,30 @@ fn sub_threshold<C: Suite>(
             Ok(_) => ctx.viol("signer-accepts-sub-threshold-package", "", d("sign returned Ok for <t commitments")),
         }
     }
+    // (a') the signer's key package after a trip through storage that lost a field: whatever still decodes with the
+    // holder's identifier and share must refuse exactly like the original (a missing threshold is not a licence to sign)
+    if k == 1 || ctx.cur_item % 3 == 0 {
+        use crate::wire::Wire;
+        let id = &holders[0];
+        if let Ok(js) = <KeyPackage<C> as Wire<C>>::to_json(&grp.kps[id]) {
+            if let Ok(serde_json::Value::Object(obj)) = serde_json::from_str::<serde_json::Value>(&js) {
+                for key in obj.keys() {
+                    let mut o2 = obj.clone();
+                    o2.remove(key);
+                    let txt = serde_json::Value::Object(o2).to_string();
+                    ctx.count("degraded_key_packages_tried");
+                    let Ok(kp2) = <KeyPackage<C> as Wire<C>>::from_json(&txt) else { continue };
+                    ctx.count("degraded_key_packages_decoded");
+                    if kp2.identifier() != grp.kps[id].identifier() || kp2.signing_share() != grp.kps[id].signing_share() {
+                        continue;
+                    }
+                    if C::api_sign(&pkg, &nonces[id], &kp2).is_ok() {
+                        ctx.viol("signer-accepts-sub-threshold-package", &format!("stored-without-{key}"), d("a key package decoded from JSON lacking one field signs a package with <t commitments"));
+                    }
+                }
+            }
+        }
+    }
     // (d) reconstruct with honest thresholds refuses
     let honest_kps: Vec<KeyPackage<C>> = holders.iter().map(|i| grp.kps[i].clone()).collect();
     match C::api_reconstruct(&honest_kps) {
